@@ -86,6 +86,11 @@ def _through_helper(t: Any) -> Any:
     rets = [e for e in gs.exits if e.kind == "ret"]
     if len(rets) == 1 and not gs.loops and not gs.effects and not gs.unsupported:
         return rets[0].value
+    # "the first match or None" (`for line in lines: m = R.match(line); if m: return m` ... `return None`): the match object, when
+    # there is one, is the single non-None return value
+    vals = {strip(e.value) for e in rets if e.value != ("const", None)}
+    if len(vals) == 1 and not gs.effects and not gs.unsupported:
+        return next(e.value for e in rets if e.value != ("const", None))
     return t
 
 
@@ -95,6 +100,12 @@ def group_ref(t: Any):
         return None
     if t[0] == "proj" and isinstance(t[1], tuple) and t[1][:1] == ("call",) and len(t[1]) >= 4 and t[1][1][0] in ("func", "closure", "boundcls"):
         t = ("proj", _through_helper(t[1]), t[2])
+    elif t[:2] == ("call", ("meth", "group")) and len(t[2]) == 2 and isinstance(t[2][0], tuple) and t[2][0][:1] == ("call",) and \
+            len(t[2][0]) >= 4 and t[2][0][1][0] in ("func", "closure", "boundcls"):
+        t = ("call", ("meth", "group"), (_through_helper(t[2][0]), t[2][1]), t[3])
+    elif t[0] == "proj" and isinstance(t[1], tuple) and t[1][:2] == ("call", ("meth", "groups")) and len(t[1][2]) == 1 and \
+            isinstance(t[1][2][0], tuple) and t[1][2][0][:1] == ("call",) and len(t[1][2][0]) >= 4 and t[1][2][0][1][0] in ("func", "closure", "boundcls"):
+        t = ("proj", ("call", ("meth", "groups"), (_through_helper(t[1][2][0]),), t[1][3]), t[2])
     m = k = None
     if t[0] == "proj" and isinstance(t[1], tuple) and t[1][:2] == ("call", ("meth", "groups")) and len(t[1][2]) == 1 and isinstance(t[2], int):
         m, k = t[1][2][0], t[2] + 1
